@@ -9,7 +9,8 @@ import math
 import numpy as np
 from pqv.props.c07 import haar
 
-THEOREMS = ["Pq.C05.marginal_is_sum_of_table", "Pq.C05.table_sum_is_norm", "Pq.C05.classical_limit", "Pq.C05.indistinguishable_limit"]
+THEOREMS = ["Pq.C05.dilation_isometry", "Pq.C05.expanded_not_unitary_witness", "Pq.C05.indistinguishable_limit",
+            "Pq.C05.classical_limit", "Pq.C05.gramProb_real"]
 FILES = ["PqVerif/Model/PassiveProb.lean", "PqVerif/Props/C05.lean"]
 
 
@@ -304,6 +305,12 @@ def run(ctx):
     ctx.assumptions = ["the Gram-matrix (Tichy) formula and the Halmos dilation are the independent oracle (implemented in the harness)",
                        "feature combinations the state refuses with NotImplementedCalculation are counted, not failed"]
     ctx.prove("PqVerif.Props.C05", THEOREMS, FILES)
+    import glob, os, subprocess, sys
+    for f in sorted(glob.glob(os.path.join(os.path.dirname(__file__), "..", "..", "..", "corpus", "repro", "c05_*.py"))):
+        p = subprocess.run([sys.executable, f], capture_output=True, text=True, cwd=os.environ.get("PQ_REPO", "/repo"))
+        ctx.count("repro:" + os.path.basename(f), True)
+        if p.returncode != 0:
+            ctx.fail("repro:" + os.path.basename(f), "pinned regression fails: " + p.stdout[-300:], {"script": f})
     fails = scenarios(ctx, n_cases)
     seen = set()
     for key, msg, inp in fails:
